@@ -338,6 +338,8 @@ type NegResult struct {
 	O     *ConnOutcome
 	Obs   *HelloObs
 	Sent  []byte
+	// SharedAfter: the client Config was used before by a connection of this other fingerprint.
+	SharedAfter string
 }
 
 // RunNeg executes one negotiation world: fingerprint, dry build, plan, connection, echo.
@@ -345,7 +347,19 @@ func RunNeg(c *Ctx, w *simrt.World, stratum int64, forceKnob string, mkCfg func(
 	ch := c.Ch
 	f := PickFingerprint(ch, stratum, mkCfg)
 	r := &NegResult{F: f}
-	dry, err := DryHello(mkCfg(), f.IDI.ID, f.Spec())
+	// the caller's Config may have been used before by a connection of another fingerprint (UClient
+	// keeps the caller's *Config): what that connection left in it must not decide what this one
+	// accepts
+	ccfg := mkCfg()
+	if f.IDI.ID != tls.HelloGolang && ch.Bool(15, "shared-config") {
+		pol := AllParrots[ch.Pick(len(AllParrots), "polluter")]
+		RunConn(c, w, &ConnSpec{Name: "polluter", ID: pol.ID, CCfg: ccfg, Peer: PeerUTLS, SCfg: &tls.Config{Certificates: []tls.Certificate{Cert("ecdsa").U, Cert("rsa").U}, MinVersion: tls.VersionTLS10}, Payload: [][]byte{[]byte("p")}})
+		r.SharedAfter = pol.Name
+		c.Fault("shared-config", 1)
+	}
+	// the plan is drawn from the hello this Config produces (a clone, so that the dry build itself
+	// leaves no trace in the Config the connection uses)
+	dry, err := DryHello(ccfg.Clone(), f.IDI.ID, f.Spec())
 	if err != nil {
 		c.R.Harness = fmt.Sprintf("dry build of %s failed: %v", f.IDI.Name, err)
 		return r
@@ -361,7 +375,7 @@ func RunNeg(c *Ctx, w *simrt.World, stratum int64, forceKnob string, mkCfg func(
 	r.Plan = DrawPlan(ch, r.Offer, forceKnob)
 	scfg, stdcfg := ServerConfigs(r.Plan)
 	frag := ch.Bool(40, "frag")
-	sp := &ConnSpec{ID: f.IDI.ID, Spec: f.Spec(), CCfg: mkCfg(), Peer: r.Plan.Peer, SCfg: scfg, StdCfg: stdcfg, Payload: payload,
+	sp := &ConnSpec{ID: f.IDI.ID, Spec: f.Spec(), CCfg: ccfg, Peer: r.Plan.Peer, SCfg: scfg, StdCfg: stdcfg, Payload: payload,
 		Setup: func(l *simnet.Link) { l.Frag = frag }}
 	for _, p := range payload {
 		r.Sent = append(r.Sent, p...)
